@@ -1325,7 +1325,8 @@ def run_small_families(ck, server, clients, blobs, disagree):
     def add_e(meth, outcome_c, res, exc_id, meta):
         ecases.append("(%s, %s, %s)" % (meth, outcome_c, c_result(res, blobs, exc_id)))
         emeta.append(meta)
-        ck.seen(("e",) + tuple(meta[:4]))
+        # (for socket faults meta[2] is the exception text, which depends on timing: not part of the identity)
+        ck.seen(("e",) + (tuple(meta[:2]) + (len(emeta),) if meta[0] == "fault" else tuple(meta[:4])))
 
     # 4a. injected HTTPError, every code
     for code in range(100, 600):
